@@ -804,12 +804,12 @@ def cost_items(g, co):
             raise Untranslatable('negative_loglikelihood: kinds of the returned values')
         masked = _masked_branch_facts(fn, ['y', 'yhat'], True)
         return (f'def nllCost {{K : Type}} [Num K] (lg : K → K) (n : Nat) (y yhat : Nat → K) : K :=\n{t.prefix()}  {cost[1]}\n'
-                f'def nllGrad {HDR} (y yhat : Nat → K) : Nat → K :=\n{t.prefix()}  fun i => {grad[1]}\n'
+                f'def nllGrad {{K : Type}} [Num K] (lg : K → K) (n : Nat) (y yhat : Nat → K) : Nat → K :=\n{t.prefix()}  fun i => {grad[1]}\n'
                 f'def nllMaskedIsCompressScatter : Bool := {"true" if masked else "false"}\n')
     g.item('negative_loglikelihood', 'prysm/x/optym/cost.py:negative_loglikelihood',
            lambda: get_def(co, 'negative_loglikelihood'), nll,
            f'def nllCost {{K : Type}} [Num K] (lg : K → K) (n : Nat) (y yhat : Nat → K) : K := {M}.nllCost lg n y yhat\n'
-           f'def nllGrad {HDR} (y yhat : Nat → K) : Nat → K := {M}.nllGrad n y yhat\ndef nllMaskedIsCompressScatter : Bool := true\n')
+           f'def nllGrad {{K : Type}} [Num K] (lg : K → K) (n : Nat) (y yhat : Nat → K) : Nat → K := {M}.nllGrad n y yhat\ndef nllMaskedIsCompressScatter : Bool := true\n')
 
 
 def activation_items(g, ac):
@@ -1080,6 +1080,30 @@ def structural_items(g, ft, po, dm):
           lambda: get_def(dm, 'DM.render_backprop'), dm_seq)
 
 
+def padcrop_items(g, repo):
+    """own translated copy of the pad2d / crop_center offsets (the C04 translator items, re-emitted here so that
+    C06 does not depend on another property's generated file)"""
+    import re
+    import gen_c04
+    ft, _ = load(repo, 'prysm/fttools.py')
+    text, items = gen_c04.generate(repo)
+    st = {it['name']: it for it in items}
+
+    def grab(defname, item):
+        def build():
+            if st[item].get('status') != 'ok':
+                raise Untranslatable(st[item].get('reason', 'C04 item untranslatable'))
+            m = re.search(rf'^def {defname} \(n N : Int\) : Int := (.*)$', text, re.M)
+            if not m:
+                raise Untranslatable(f'{defname} not found in the C04 translation')
+            return f'def {defname} (n N : Int) : Int := {m.group(1)}'
+        return build
+    g.item('pad2d.offset', 'prysm/fttools.py:pad2d', lambda: get_def(ft, 'pad2d'), grab('padSliceLo', 'pad2d.slcs'),
+           'def padSliceLo (n N : Int) : Int := N / 2 - n / 2')
+    g.item('crop_center.offset', 'prysm/fttools.py:crop_center', lambda: get_def(ft, 'crop_center'), grab('cropLo', 'crop_center'),
+           'def cropLo (n N : Int) : Int := n / 2 - N / 2')
+
+
 def generate(repo):
     g = Gen('C06', imports=['PrysmVerif.PyPrelude', 'PrysmVerif.Model.C06'],
             header='set_option linter.unusedVariables false')
@@ -1098,6 +1122,7 @@ def generate(repo):
     po, _ = load(repo, 'prysm/polynomials/__init__.py')
     dm, _ = load(repo, 'prysm/x/dm.py')
     structural_items(g, ft, po, dm)
+    padcrop_items(g, repo)
     return g.finish()
 
 
